@@ -1,6 +1,6 @@
 """C22 - memo receivers survive arbitrary datagrams and accept only authentic memos."""
 from functools import lru_cache
-from itertools import product
+from itertools import permutations, product
 
 from .. import memosys as ms
 from ..enum import Acc
@@ -31,13 +31,18 @@ def RULE(tier):
             "length 3..4 over a 12-byte alphabet holding both head-code sextets; (c) for each gram (zeroth / other) of a valid %s "
             "memo per 4 codes x 2 header encodings: EVERY single-byte replacement by all 255 other values%s and EVERY truncation, "
             "delivered in place among the memo's intact grams%s; (d) crafted self-signed and unsigned gram sets with count in 0..3 and "
-            "gram numbers from {0,1,2,5,2^24-1} (every subset, 2 orders), i.e. gram numbers at and beyond the count. Oracle: no "
+            "gram numbers from {0,1,2,5,2^24-1} (every subset, 2 orders), i.e. gram numbers at and beyond the count; (e) reordering: for "
+            "every byte position of every gram of the valid memos a mutated copy (lowest and highest bit flipped) delivered together "
+            "with ALL intact grams in every one of the (n+1)! delivery orders (mutant ahead of the zeroth gram, ahead of its own "
+            "original, ...); (f) memo-id reuse: two 2-gram memos with the same memo id from two different signers, every delivery "
+            "sequence of length <= %d over their four grams (replays after completion, interleavings, mixtures). Oracle: no "
             "exception escapes serviceAllRx (key = escape:<innermost hio frame>:<type>); authic receivers deliver only memos all of "
             "whose grams verify for the claimed signer and equal the original; crafted sets deliver exactly when grams 0..count-1 are "
             "present. Every case is a distinct datagram sequence." % (
                 "2-gram" if tier == "quick" else "2-gram and 3-gram",
                 " (quick: for the two 'sure' codes at every header byte, the first body byte, the first signature byte and the last byte)" if tier == "quick" else "",
-                "" if tier == "quick" else ", and once more followed by the intact original of the mutated gram"))
+                "" if tier == "quick" else ", and once more followed by the intact original of the mutated gram",
+                5 if tier == "quick" else 6))
 
 
 def EXHAUSTIVE(tier):
@@ -71,6 +76,10 @@ def jobs(tier):
         for code in ms.ZCODES:
             for curt in (False, True):
                 js.append(("craft", authic, code, curt))
+                js.append(("reuse", authic, code, curt))
+        for code, curt, ng in corpus_configs(tier):
+            for gi in range(ng):
+                js.append(("orders", authic, code, curt, ng, gi))
     return js
 
 
@@ -221,6 +230,72 @@ def run_craft(authic, code, curt, count, present, rev):
     return ("craft", None if ex is None else (ms.site_of(ex), type(ex).__name__), len(got)), viols
 
 
+def order_perms(ng):
+    """all delivery orders of {variant, intact gram 0, .., intact gram ng-1}: items are -1 (the variant) or a gram index"""
+    return list(permutations([-1] + list(range(ng))))
+
+
+def run_order(authic, code, curt, ng, gi, pos, val, pi):
+    """the mutated copy of gram gi AND every intact gram of the memo (incl. the original of gi), in the pi-th delivery order"""
+    grams, want = corpus(code, curt, ng)
+    g = bytearray(grams[gi])
+    g[pos] = val
+    variant = bytes(g)
+    order = order_perms(ng)[pi]
+    seq = [variant if i == -1 else grams[i] for i in order]
+    r = ms.receiver(authic)
+    viols = []
+    ex = ms.deliver(r, [(x, SRC) for x in seq])
+    got = [tuple(x) for x in r.inbox]
+    if ex is not None or (authic and got):
+        what = "memo %r code=%s %s: gram %d with byte %d (%s) %#04x->%#04x delivered with all intact grams in order %r (-1 = the mutated copy) (authic=%s)" % (
+            want[0], code, "b2" if curt else "b64", gi, pos, region(code, curt, gi, pos, len(g)), grams[gi][pos], val, list(order), authic)
+        judge_escape(ex, viols, what)
+        if authic:
+            early = "mutant-first" if order.index(-1) < order.index(gi) else "mutant-after-original"
+            for x in got:
+                if code not in ms.SIGNED:
+                    viols.append(("unsigned-delivered:authic", "%s: authic receiver delivered %r from unsigned traffic" % (what, x)))
+                elif x != want:
+                    viols.append(("unauthentic-delivered:authic:reordered:%s" % early, "%s: authic receiver delivered %r, original is %r" % (what, x, want)))
+    return ("order", None if ex is None else (ms.site_of(ex), type(ex).__name__), tuple(x == want for x in got)), viols
+
+
+REUSE_SRC = ("peerV:1", "peerA:2")
+
+
+@lru_cache(maxsize=None)
+def reuse_pool(code, curt):
+    """two 2-gram memos with the SAME memo id from two different signers (reference gram builder): V0 V1 A0 A1"""
+    mid = ms.make_mid(7)
+    pool = []
+    for who, tag in ((ms.ALICE, b"V"), (ms.MALLORY, b"A")):
+        pool.append(ms.craft(code, 2, mid, tag + b"0", who, curt))
+        pool.append(ms.craft(ms.PAIR[code], 1, mid, tag + b"1", who, curt))
+    originals = [("V0V1", ms.ALICE.vid if code in ms.SIGNED else None), ("A0A1", ms.MALLORY.vid if code in ms.SIGNED else None)]
+    return tuple(pool), originals
+
+
+def run_reuse(authic, code, curt, seq):
+    pool, originals = reuse_pool(code, curt)
+    r = ms.receiver(authic)
+    viols = []
+    ex = ms.deliver(r, [(pool[i], REUSE_SRC[i // 2]) for i in seq])
+    names = ["V0", "V1", "A0", "A1"]
+    what = "two signers using one memo id, %s %s grams delivered in order %r (authic=%s)" % (code, "b2" if curt else "b64", [names[i] for i in seq], authic)
+    judge_escape(ex, viols, what)
+    got = [tuple(x) for x in r.inbox]
+    if authic:
+        for x in got:
+            if code not in ms.SIGNED:
+                viols.append(("unsigned-delivered:authic", "%s: authic receiver delivered %r from unsigned traffic" % (what, x)))
+            elif (x[0], x[2]) not in originals:
+                kind = "mixed-signers" if x[0] in ("V0A1", "A0V1") else "wrong-signer" if x[0] in ("V0V1", "A0A1") else "other"
+                viols.append(("unauthentic-delivered:authic:memo-id-reuse:%s" % kind, "%s: authic receiver delivered %r; the only memos whose grams "
+                              "all verify for one signer are %r" % (what, x, originals)))
+    return ("reuse", None if ex is None else (ms.site_of(ex), type(ex).__name__), tuple((x[0], x[2] == ms.ALICE.vid) for x in got)), viols
+
+
 # ---------------------------------------------------------------- cases <-> jobs
 def run_case(job, case):
     kind, authic = job[0], bool(job[1])
@@ -244,6 +319,11 @@ def run_case(job, case):
         code, curt = job[2], bool(job[3])
         count, rev = case[0], case[1]
         return run_craft(authic, code, curt, count, tuple(case[4:]), bool(rev))
+    if kind == "orders":
+        code, curt, ng, gi = job[2], bool(job[3]), job[4], job[5]
+        return run_order(authic, code, curt, ng, gi, case[0], case[1], case[2])
+    if kind == "reuse":
+        return run_reuse(authic, job[2], bool(job[3]), case)
     raise ValueError(kind)
 
 
@@ -295,6 +375,18 @@ def run_job(job, tier, seed):
             for gi in range(ng):
                 for n in range(len(grams[gi])):
                     do([again, gi, n, 0, 0], dict(code=code, curt=curt, gram=gi, kept=n, of=len(grams[gi])))
+    elif kind == "orders":
+        code, curt, ng, gi = job[2:6]
+        grams, _ = corpus(code, curt, ng)
+        g = grams[gi]
+        for pos in range(len(g)):
+            for val in (g[pos] ^ 0x01, g[pos] ^ 0x80):
+                for pi in range(len(order_perms(ng))):
+                    do([pos, val, pi], dict(code=code, curt=curt, gram=gi, pos=pos, value=val, order=list(order_perms(ng)[pi])))
+    elif kind == "reuse":
+        for n in range(1, (5 if tier == "quick" else 6) + 1):
+            for seq in product(range(4), repeat=n):
+                do(list(seq), dict(code=job[2], curt=job[3], order=list(seq)))
     elif kind == "craft":
         for count, present, rev in craft_cases():
             do([count, 1 if rev else 0, 0, 0] + list(present), dict(code=job[2], curt=job[3], count=count, numbers=list(present), reversed=rev))
